@@ -509,7 +509,7 @@ def cli(argv=None, mode='output'):
 
         try:
             cnf = args.generator.build_formula(args, formula_class=CNF)
-        except (CLIError, ValueError) as e:
+        except (CLIError, ValueError, OverflowError) as e:
             args.generator.subparser.error(e)
         except RuntimeError as e:
             raise InternalBug(e) from e
@@ -517,7 +517,7 @@ def cli(argv=None, mode='output'):
         for argdict in t_args:
             try:
                 cnf = argdict.transformation.transform_cnf(cnf, argdict)
-            except (CLIError, ValueError) as e:
+            except (CLIError, ValueError, OverflowError) as e:
                 argdict.transformation.subparser.error(e)
             except RuntimeError as e:
                 raise InternalBug(e) from e
